@@ -87,7 +87,7 @@ def gen_structure(rng, name=None, natoms=None):
     height = rng.uniform(0.05, 0.3)
     while len(atoms) < natoms:
         # a new molecule: seed near a special position or at a general one
-        mode = rng.choice(['general', 'general', 'near_centre', 'on_centre', 'near_axis', 'on_quarter'])
+        mode = rng.choice(['general', 'general', 'near_centre', 'on_centre', 'near_axis', 'on_quarter', 'on_quarter'])
         if shared is not None:
             mode = 'shared_axis'
         if mode == 'general':
